@@ -29,6 +29,8 @@ type TierSpec struct {
 	MaxPaths int            `json:"max_paths"`
 	TimeoutS int            `json:"timeout_s"`
 	OblS     int            `json:"obligation_timeout_s"`
+	PipeMs   int            `json:"pipe_timeout_ms"` // incremental-pipe cap per obligation (default 10000); small for FP-heavy harnesses
+	FeasMs   int            `json:"feas_timeout_ms"` // incremental-pipe cap per feasibility query (default 2000)
 	Skip     bool           `json:"skip"`
 }
 
